@@ -14,7 +14,7 @@ from hgsim.world import call_async, call_sync, make_runner, patched
 
 ID = "C18"
 LEVEL = "exploration"
-BUDGET = {"quick": (8, 150, 45), "thorough": (16, 9000, 600)}
+BUDGET = {"quick": (8, 350, 90), "thorough": (16, 9000, 600)}
 RULE = (
     "seeded graphs (flat, and with the mutating node inside a nested graph) whose functions append to list-valued signature defaults and return a "
     "snapshot, with a bound mutable object and mutable values in the caller's input dict; a HISTORY of 3-8 operations on a small pool of graphs and "
